@@ -379,9 +379,11 @@ FallThroughE(Epre, Epost, old, new) ==
   /\ \A e \in Epre : (e[1] = old /\ e[2] # new) => (<<new, e[2]>> \in Epost /\ <<old, e[2]>> \notin Epost)
 (* the same on observed edges <<from, to, from is mapped, to is mapped>>, old and new being the   *)
 (* mapped nodes at those addresses                                                             *)
-FallThroughO(Epre, Epost, old, new) ==
+FallThroughO(Epre, Epost, old, new, hi) ==
   /\ \E e \in Epost : e[1] = old /\ e[3] = 1 /\ e[2] = new /\ e[4] = 1
+  \* old's former out-edges no longer leave old; they leave the inserted block new .. hi-1 (the node mapped at
+  \* new, or the piece of it that a re-inserted vertex split off in the same call)
   /\ \A e \in Epre : (e[1] = old /\ e[3] = 1 /\ ~(e[2] = new /\ e[4] = 1)) =>
-        /\ \E f \in Epost : f[1] = new /\ f[3] = 1 /\ f[2] = e[2]
+        /\ \E f \in Epost : f[3] = 1 /\ new <= f[1] /\ f[1] < hi /\ f[2] = e[2]
         /\ ~\E f \in Epost : f[1] = old /\ f[3] = 1 /\ f[2] = e[2] /\ ~(f[2] = new /\ f[4] = 1)
 =============================================================================
